@@ -530,9 +530,12 @@ def r3(rep, v, prog, mod, F):
             if not any(y.op in ('call', 'invoke') and (F.callee_of(y) or '') in loaders for y in after):
                 rep.note('%s %s:%s %s but does not load the buffer state (the buffer is activated later by yylex/yyrestart)' % (v.name, fn.name, x.line, what)); continue
             n += 1
-            esc = [y for y in cfg.reach(x, avoid=pts) if y.op == 'ret']
+            # a path matters only if it activates the buffer (passes a call of yy_load_buffer_state): a pop that leaves the
+            # stack empty makes no buffer current, and yylex loads (and tests) the one it creates later
+            acts = [y for y in cfg.reach(x, avoid=pts) if y.op in ('call', 'invoke') and (F.callee_of(y) or '') in loaders]
+            esc = [y for L in acts for y in cfg.reach(L, avoid=pts) if y.op == 'ret']
             if not esc:
-                rep.ok('C13.R3', '%s %s:%s %s; every path to return passes a comparison with yy_state_buf_max' % (v.name, fn.name, x.line, what))
+                rep.ok('C13.R3', '%s %s:%s %s; every path that loads the buffer state passes a comparison with yy_state_buf_max before returning' % (v.name, fn.name, x.line, what))
             else:
                 p = cfg.path(x, lambda y: y.op == 'ret', avoid=pts)
                 rep.fail('C13.R3', 'C13.R3:%s:%s:no-capacity-test' % (skel(v), fkey(fn)), where(x),
